@@ -190,6 +190,9 @@ func (g *Gen) randBatch(name string, cfg batchCfg) *BatchSpec {
 		if g.chance(0.06) {
 			// an external id whose length needs a two-byte varint
 			id = append([]byte(fmt.Sprintf("%s-long-%d-", name, i)), bytes.Repeat([]byte("x"), 250+g.r.Intn(200))...)
+			if g.chance(0.4) {
+				id = id[:[]int{127, 128, 129}[g.r.Intn(3)]] // exactly at the one-byte / two-byte boundary
+			}
 		}
 		d := DocSpec{ID: id, Plain: g.chance(0.3)}
 		idf := FieldSpec{Kind: "fld", Name: "_id", Typ: 't', Stored: true, Len: 1, Val: id, Toks: []TokSpec{{Term: id, Freq: 1}}}
@@ -218,6 +221,9 @@ func (g *Gen) randBatch(name string, cfg batchCfg) *BatchSpec {
 				if g.chance(0.12) {
 					vl = 120 + g.r.Intn(500) // lengths whose varints need two bytes
 				}
+				if g.chance(0.04) {
+					vl = []int{127, 128, 129, 16383, 16384}[g.r.Intn(5)] // exactly at a varint boundary
+				}
 				if cfg.bigVals && g.chance(0.15) {
 					vl = 66000 + g.r.Intn(5000)
 				}
@@ -229,6 +235,9 @@ func (g *Gen) randBatch(name string, cfg batchCfg) *BatchSpec {
 					na := 1 + g.r.Intn(4)
 					for k := 0; k < na; k++ {
 						f.AP = append(f.AP, uint64(g.r.Intn(7)))
+					}
+					if g.chance(0.1) {
+						f.AP[0] = []uint64{127, 128, 129, 16384}[g.r.Intn(4)]
 					}
 				}
 			}
@@ -1009,6 +1018,11 @@ func (g *Gen) genMergeCase(cfgMod func(*batchCfg), dump func(seg string), depth 
 // chunks from the cardinality; writer and reader must agree on it).
 func (g *Gen) bigMergeCase() {
 	mode := []int{1026, 1026, 1025, 1024, 3}[g.r.Intn(5)]
+	// the first two big merges of a run are the cardinality-dependent modes with deletions crossing 1024
+	nth := g.stats["bigmerge"]
+	if nth < 2 {
+		mode = []int{1026, 1025}[nth]
+	}
 	g.curMode = mode
 	g.emit("cfg chunkmode=%d", mode)
 	var segs []string
@@ -1051,7 +1065,7 @@ func (g *Gen) bigMergeCase() {
 	}
 	var drops []string
 	total := 0
-	crossing := g.chance(0.7)
+	crossing := g.chance(0.7) || nth < 2
 	for _, s := range segs {
 		nd := g.ndocs[s]
 		var xs []int
